@@ -11,7 +11,7 @@ RULE = (
     "must reproduce the bytes, also under inter-token whitespace perturbation (runs of spaces, \\n, \\r\\n, tabs, leading/trailing); extended rendering compared token-by-token with the "
     "reference; hand-made token strings: names/aliases/even hex accepted, odd-length hex / non-hex / unknown OP_ rejected. non-trivial = distinct minimally-pushed script with >=1 push or conditional"
 )
-ASSUMPTIONS = ["reference renderer/parser vf/ref/asm.py", "opcode names are the exact upper-case spellings (hex data is case-insensitive); no claim for: whitespace inside a token, a bare newline with no surrounding space, OP_FALSE/OP_TRUE spellings, OP_PUSHDATAn names used as bare tokens"]
+ASSUMPTIONS = ["reference renderer/parser vf/ref/asm.py", "opcode names are the exact upper-case spellings (hex data is case-insensitive); no claim for: whitespace inside a token, a bare newline with no surrounding space, OP_PUSHDATAn names used as bare tokens"]
 NSHARDS = {"quick": 32, "thorough": 64}
 BUDGET_S = {"quick": 200, "thorough": 1800}
 MIN_HITS = {
@@ -91,6 +91,14 @@ def cases(ctx):
         d_ = gen.rbytes(r, L)
         yield {"k": "script", "hex": wire.minimal_push(d_).hex(), "tag": "grammar", "ws_seed": r.getrandbits(30)}
         yield {"k": "script", "hex": (b"\x51\x63" + wire.minimal_push(d_) + b"\x68").hex(), "tag": "grammar"}
+    # every opcode name WITHOUT its OP_ prefix, upper and lower case, alone and between two valid tokens: a token is an opcode only under
+    # its full name; what remains is a numeric alias, even-length hex data (1ADD = the two bytes 1a dd) or an error - the reference decides
+    for ni, nm in enumerate(sorted(asm.NAME2OP)):
+        if ni % N != S or not nm.startswith("OP_") or len(nm) <= 3:
+            continue
+        for tok_ in (nm[3:], nm[3:].lower(), nm[2:], nm[3:] + "_", "OP" + nm[3:], "OP_OP_" + nm[3:]):
+            yield {"k": "text", "text": tok_, "expect": "ref", "prefixless": True}
+            yield {"k": "text", "text": "OP_1 " + tok_ + " 51", "expect": "ref", "prefixless": True}
     # hand-made text
     names = list(asm.NAME2OP) + list(asm.ALIASES)
     for i in range(6000 if t else 12):
@@ -127,6 +135,8 @@ def judge(ctx, case):
         ctx.ev()
         if case.get("invisible"):
             ctx.hit("invisible_character")
+        if case.get("prefixless"):
+            ctx.hit("opcode_name_without_prefix")
         if ref is None:
             ctx.hit("reject_case")
             ctx.nontrivial()
